@@ -397,9 +397,27 @@ fn j2oas_schema_object(
     obj: &schemars::schema::SchemaObject,
 ) -> openapiv3::ReferenceOr<openapiv3::Schema> {
     if let Some(reference) = &obj.reference {
-        return openapiv3::ReferenceOr::Reference {
+        let reference = openapiv3::ReferenceOr::Reference {
             reference: reference.clone(),
         };
+        // A reference cannot carry siblings in OpenAPI 3.0.  `Option<T>` of
+        // a referenceable `T` arrives here as `{$ref, nullable: true}` when it
+        // is a whole body or response type (schemars only rewrites such
+        // schemas inside root schemas and definitions); keep the nullability
+        // by wrapping the reference, as schemars does elsewhere.
+        if obj.extensions.get("nullable") == Some(&serde_json::Value::Bool(true))
+        {
+            return openapiv3::ReferenceOr::Item(openapiv3::Schema {
+                schema_data: openapiv3::SchemaData {
+                    nullable: true,
+                    ..Default::default()
+                },
+                schema_kind: openapiv3::SchemaKind::AllOf {
+                    all_of: vec![reference],
+                },
+            });
+        }
+        return reference;
     }
 
     let ty = match &obj.instance_type {
